@@ -802,3 +802,34 @@ Example ex_die_between_writes :
   let s := run cfg_procs [Step 0; Step 0; Step 0; Step 0; Step 0; Die 0]%nat (init_st tab4) in
   (pcs s 0%nat, idx s 1%nat, pwd s 1%nat, semv s) = (PDeadW 1, [99], [], 1%nat).
 Proof. vm_compute. reflexivity. Qed.
+
+(* ------------------------------------------------------------------ the existence check and the size of the table *)
+(* DoSearchUserRaw(id) != 0 exactly when SOME slot below MAX_USERS holds the id case-insensitively: no slot of the table is
+   outside the reach of the lookup, whatever MAX_USERS is (the production tables have more slots than the index has buckets) *)
+Lemma exists_id_spec n tab id : exists_id n tab id = true <-> exists k, (k < n)%nat /\ key (tab k) = key id.
+Proof.
+  unfold exists_id. rewrite existsb_exists. split.
+  - intros [k [Hin E]]. exists k. apply in_seq in Hin. split; [lia|]. apply ci_eqb_key. exact E.
+  - intros [k [Hk E]]. exists k. split; [apply in_seq; lia|]. apply ci_eqb_key. exact E.
+Qed.
+
+(* in ANY state (reachable or not), for a table of any size: a call whose id is held, in whatever letter case, by any slot of
+   the index is refused by the existence check outside the semaphore and by the lookup inside it; it never reaches the slot search *)
+Lemma existing_id_refused c s t k : (k < nslots c)%nat -> key (idx s k) = key (uid c t) ->
+  (pcs s t = PCheck -> step c s (Step t) = Some (set_pc s t (PDoneErr E_EXISTS))) /\
+  (pcs s t = PRecheck -> step c s (Step t) = Some (set_pc s t (PUnlockErr E_EXISTS))).
+Proof.
+  intros Hk E.
+  assert (X : exists_id (nslots c) (idx s) (uid c t) = true) by (apply exists_id_spec; exists k; split; assumption).
+  split; intros P; cbn [step]; unfold step_thread; rewrite P, X; reflexivity.
+Qed.
+
+(* non-vacuity: a table of 300 slots whose only account sits in the last slot; its case twin is refused at the check, and
+   (second call, parked inside the lock by hand) at the lookup under the semaphore *)
+Definition cfg_last : cfg := mkCfg 300 true (fun _ => [97; 98]) (fun _ => 0%nat).
+Definition tab_last : nat -> list Z := fun k => if Nat.eqb k 299 then [65; 66] else [].
+Example ex_last_slot_refused :
+  let s := run cfg_last [Step 0]%nat (init_st tab_last) in
+  let s1 := set_pc (init_st tab_last) 1%nat PRecheck in
+  (pcs s 0%nat, option_map (fun s' => pcs s' 1%nat) (step cfg_last s1 (Step 1%nat))) = (PDoneErr E_EXISTS, Some (PUnlockErr E_EXISTS)).
+Proof. vm_compute. reflexivity. Qed.
